@@ -425,7 +425,13 @@ pub fn make_world(plan: &Plan, seed: u64, idx: u64) -> (World, String, Prng) {
     let adv = adversarial_warm(&src);
     for party in parties.iter_mut() {
         if p.chance(1, 3) {
-            let other = if p.chance(1, 2) { adv.clone() } else { gen::program(&mut p) };
+            // what the process did before: the adversarial program, another generated program, or a
+            // compilation that FAILS (ill-typed program; error paths must not leave state behind)
+            let other = match p.below(5) {
+                0 | 1 => adv.clone(),
+                2 | 3 => gen::program(&mut p),
+                _ => gen::ill_typed(&mut p),
+            };
             party.steps.insert(0, warm_step(other));
         }
     }
